@@ -132,6 +132,13 @@ def handle_path_command(args: argparse.Namespace) -> None:  # noqa: PLR0912, D10
             raise
         sys.stderr.write(f"error: {err}\n")
         sys.exit(1)
+    except RecursionError as err:
+        # The parser is recursive. Hundreds of nested parentheses or filters
+        # exceed the interpreter's recursion limit.
+        if args.debug:
+            raise
+        sys.stderr.write(f"error: query is too deeply nested: {err}\n")
+        sys.exit(1)
 
     try:
         data = json.load(args.file)
@@ -157,6 +164,13 @@ def handle_path_command(args: argparse.Namespace) -> None:  # noqa: PLR0912, D10
         if args.debug:
             raise
         sys.stderr.write(f"error: {err}\n")
+        sys.exit(1)
+    except RecursionError as err:
+        # Each segment wraps the iterator of the one before it, so a query with
+        # around a thousand segments exceeds the interpreter's recursion limit.
+        if args.debug:
+            raise
+        sys.stderr.write(f"error: query has too many segments: {err}\n")
         sys.exit(1)
 
     indent = INDENT if args.pretty else None
